@@ -15,7 +15,7 @@ STATE = {'iv_state': FnC(ret='r', props=('C09',), ensures=[('state', ('C09',), '
 
 def unit():
     lib = Mod('ige_lib', 'ige/src/lib.rs', items=[
-        Sel('type BlockSize'), Sel('type IgeIvSize'), Sel('fn xor', fns={'xor': K.xor_fn()})])
+        Sel('type BlockSize'), Sel('type IgeIvSize'), Sel('fn xor', fns={'xor': K.xor_fn(props=P_REC)})])
     uses = 'use super::ige_lib::{xor, IgeIvSize}; use core::ops::Add;'
     dec = K.std_block_mode_mod(
         'ige', 'dec', 'ige/src/decrypt.rs', 'ige_dec_step', uses=uses, iv_fields=XY,
